@@ -5,6 +5,7 @@ strictly increasing or decreasing) and ALL x over the reals (A1).  Ghost state: 
 of the final tree reached from `node` for x; FV = the final list of node values."""
 import z3
 from pyvc.api import Contract, contract
+from contracts._frames import query_frame
 from pyvc.values import Obj, NdArr, SList, z
 from pyvc import models
 
@@ -444,6 +445,7 @@ applyF = z3.Function("apply", models.Est, models.Row, z3.IntSort())        # gho
 
 
 @contract(S + "::predict_leaves", "C12")
+@query_frame("model")
 class PredictLeaves(Contract):
     """for a fitted scikit-learn tree (any number of nodes, any batch): predict_leaves(model, X)[r] is the leaf the tree routes row r to"""
 
